@@ -47,8 +47,10 @@ def main():
             p = os.path.join(root, f)
             s = open(p, encoding="utf-8").read()
             rel = os.path.relpath(p, os.path.join(DST, "src"))
-            if rel.startswith(("plugin/", "analysis/", "input_text/")) and "/test" not in rel and not f.startswith("test"):
-                # a scheduling point at the entry of every function of the plugins and of the analysis core, so that two
+            if (rel.startswith(("plugin/", "analysis/", "input_text/")) or rel in ("sentence_detector.rs", "sentence_splitter.rs", "dic/lexicon_set.rs",
+                                                                                "dic/lexicon/word_infos.rs")) and "/test" not in rel and not f.startswith("test"):
+                # a scheduling point at the entry of every function of the plugins, of the analysis core, of the sentence
+                # detector / splitter and of the word-info readers, so that two
                 # tasks can be *inside* the same plugin call at the same time (e.g. one of them holding a lock)
                 s, k = FN_OPEN.subn(lambda m: m.group(0) + " crate::vyield();", s)
                 n_yield += k
